@@ -11,6 +11,7 @@ import (
 	"fmt"
 	"io"
 
+	"github.com/cnotch/ipchub/utils/verifhook"
 	"github.com/pion/rtp"
 )
 
@@ -137,6 +138,7 @@ func (p *Packet) Write(w io.Writer, channelConfig []int) error {
 		return err
 	}
 
+	verifhook.Point("rtpwrite.prefix", uint32(ch))
 	// 写包数据部分
 	if _, err := w.Write(p.Data); err != nil {
 		return err
